@@ -1310,10 +1310,11 @@ static void CodeALIGN(Word Index) {
                 if (1 == ArgCnt) {
                     DontPrint = !!CodeLen;
                     BookKeeping();
-                } else if (CodeLen > (LongInt)MaxCodeLen) {
+                } else if ((LargeInt)CodeLen * Granularity() > (LargeInt)MaxCodeLen) {
                     WrError(ErrNum_CodeOverflow);
                 } else {
-                    memset(BAsmCode, AlignFill, CodeLen);
+                    /* CodeLen counts address units, the code buffer is filled per byte */
+                    memset(BAsmCode, AlignFill, CodeLen * Granularity());
                     DontPrint = False;
                 }
             }
